@@ -27,6 +27,10 @@ func (p *FunctionBuilder) buildManipulator(
 
 	ret := &gmodel.Manipulator{}
 	ret.Pkg, _ = p.imports.LookupName(m.Func.Pkg().Path())
+	if ret.Pkg == "." {
+		// A function of a dot-imported package is called without qualifier.
+		ret.Pkg = ""
+	}
 	ret.Name = m.Func.Name()
 	ret.RetError = m.RetError
 
